@@ -11,7 +11,7 @@ except Exception:
 
 CHECKS = {
  "C04": dict(
-   text="Every token sequence up to length 3 over a 52-token alphabet (length 4 over 32/48 tokens, length 5 over 24 thorough), every byte string up to length 2 over all 256 bytes (3 thorough) and up to 4/5 over 16 hostile bytes, the complete 1-edit neighbourhood (delete / insert / replace by every alphabet token) of a 71-program corpus covering every production, and boundary-size programs (globals, locals, params, captured variables, literals, constants, selector chains, nesting depth 100..10000) are fed to parser.ParseFile, Compiler.Compile(+Bytecode+RemoveDuplicates) and Script.Compile under the product of module configurations (none, stdlib, source modules incl. the input as a module body, custom Importables) and pre-declared variables. Oracle: returns value or error, no panic, terminates (CPU-time watchdog in worker subprocesses, confirmed alone before reporting), every reported position inside the offending input with consistent line/column.",
+   text="Every token sequence up to length 3 over a 52-token alphabet (length 4 over 32/48 tokens, length 5 over 24 thorough), every byte string up to length 2 over all 256 bytes (3 thorough) and up to 4/5 over 17 hostile bytes (incl. CR), the complete 1-edit neighbourhood (delete / insert / replace by every alphabet token) of a 71-program corpus covering every production, and boundary-size programs (globals, locals, params, captured variables, literals, constants, selector chains, nesting depth 100..10000) are fed to parser.ParseFile, Compiler.Compile(+Bytecode+RemoveDuplicates) and Script.Compile under the product of module configurations (none, stdlib, source modules incl. the input as a module body, custom Importables) and pre-declared variables. Oracle: returns value or error, no panic, terminates (CPU-time watchdog in worker subprocesses, confirmed alone before reporting), every reported position inside the offending input with consistent line/column.",
    note="Trusted: the position conventions read off parser/source_file.go. Execution of compiled code is other properties' subject. Nesting beyond depth 10000 (unbounded recursion of the recursive-descent parser/compiler) is outside the bound.",
    technique="bounded exhaustive enumeration of token sequences, byte strings and 1-edit neighbourhoods x configurations with a totality oracle, in isolated worker processes",
    design="4/C04"),
